@@ -56,7 +56,8 @@ def lexer_generate(run, prop=None):
                 ("lexemes", "LexemesDir", 3), ("lexemes", "LexemesW", 3)]
     elif prop == "C08":
         plan = [("bytes", "AlphaA", 5), ("bytes", "AlphaC", 5), ("lexemes", "LexemesA0", 4), ("lexemes", "LexemesA", 3), ("lexemes", "LexemesB", 4),
-                ("lexemes", "LexemesBlk", 4), ("lexemes", "LexemesExpr", 4), ("lexemes", "LexemesDir", 4), ("lexemes", "LexemesW", 4)]
+                ("lexemes", "LexemesBlk", 4), ("lexemes", "LexemesExpr", 4), ("lexemes", "LexemesDir", 3), ("lexemes", "LexemesW", 4)]
+        # (LexemesDir has 28 lexemes: depth 4 = 614 k inputs did not finish within 25 minutes)
     elif run.tier == "quick":
         plan = [("bytes", "AlphaA", 4), ("bytes", "AlphaB", 4), ("bytes", "AlphaC", 4), ("lexemes", "LexemesA", 3),
                 ("lexemes", "LexemesU", 4), ("lexemes", "LexemesW", 3)]
@@ -65,7 +66,7 @@ def lexer_generate(run, prop=None):
                 ("lexemes", "LexemesB", 4), ("lexemes", "LexemesU", 4), ("lexemes", "LexemesW", 4)]
     for mode, alpha, n in plan:
         cfg = lexer_cfg(alpha, n) if mode == "bytes" else lexseq_cfg(alpha, n)
-        st = run.tlc("MC_Lexer", cfg, name="MC_Lexer_%s_%d" % (alpha, n), timeout=1500)
+        st = run.tlc("MC_Lexer", cfg, name="MC_Lexer_%s_%d" % (alpha, n), timeout=3000)
         path, cnt = run.records(st)
         files.append(path)
     return files
